@@ -602,6 +602,27 @@ impl World {
         Ok(child)
     }
 
+    /// Fork a strand through the runtime (`WorldlineRuntime::fork_strand`): the child worldline
+    /// gets one fresh default writer head with an accept-all inbox. Returns (child index, receipt).
+    pub fn fork_strand(&mut self, parent: u8, fork_tick: u64, shared: bool, label: &str) -> Result<(u8, warp_core::ForkStrandReceipt), String> {
+        let child = self.n_wl() as u8;
+        let id = wl_id(child);
+        let request = warp_core::ForkStrandRequest {
+            strand_id: warp_core::make_strand_id(label),
+            source_lane_id: wl_id(parent),
+            fork_tick: wt(fork_tick),
+            child_worldline_id: id,
+            writer_heads: vec![WriterHead::with_routing(head_key(child, 0), PlaybackMode::Play, InboxPolicy::AcceptAll, None, true)],
+            retention_posture: retention_posture(shared),
+        };
+        let receipt = self.runtime.fork_strand(&mut self.provenance, request).map_err(|e| format!("{e:?}"))?;
+        self.initial.push(self.initial[parent as usize].clone());
+        self.n_heads.push(1);
+        self.ledger.push(self.ledger[parent as usize][..=fork_tick as usize].to_vec());
+        self.checkpoints.push(self.checkpoints[parent as usize].iter().copied().filter(|t| *t <= fork_tick + 1).collect());
+        Ok((child, receipt))
+    }
+
     pub fn checkpoint(&mut self, wl: u8) -> Result<(), String> {
         let ws = self.frontier(wl).clone();
         let t = ws.current_tick().as_u64();
@@ -725,4 +746,21 @@ pub fn gt(raw: u64) -> GlobalTick {
 }
 pub fn wt(raw: u64) -> WorldlineTick {
     WorldlineTick::from_raw(raw)
+}
+
+/// A validated retention posture: `Shared` (with an admission scope, so that settlement
+/// planning and execution are reachable) or `AuthorOnly`.
+pub fn retention_posture(shared: bool) -> warp_core::RetentionPosture {
+    use warp_core::{ActorId, AdmissionScopeId, AuthorityBinding, AuthorityDomainId, AuthorityDomainRef, CausalAuthority, CausalPosture, OriginId, PostureDerivation, RetentionContractId, RetentionPosture, SealStrength};
+    let origin_id = OriginId::from_bytes([0x51; 32]);
+    let authority = AuthorityDomainRef::new(origin_id, AuthorityDomainId::from_bytes([0x52; 32]));
+    let posture = if shared { CausalPosture::Shared } else { CausalPosture::AuthorOnly };
+    RetentionPosture::new(
+        posture,
+        PostureDerivation::ExplicitIntent,
+        CausalAuthority::new(origin_id, ActorId::from_bytes([0x53; 32]), authority, AuthorityBinding::LocalUnbound { origin: origin_id }, SealStrength::Advisory).expect("authority"),
+        RetentionContractId::from_bytes([0x54; 32]),
+        shared.then_some(AdmissionScopeId::from_bytes([0x55; 32])),
+    )
+    .expect("retention posture")
 }
